@@ -248,6 +248,11 @@ let judge _id (c : cursor) (r : cursor) : bool * string =
   | "kpf" ->
     let ids = next_nats c in let space = next_nats c in let pk = next_nats c in let pv = next_nats c in
     let i_a = next_int r in let i_b = next_int r in
+    (* O (round 6, theorem toIndexPF_spec): strictly increasing in-range keys => sum of value * product of ALL lower sizes *)
+    let rec strict_l l = match l with x :: (y :: _ as t) -> int_of_nat x < int_of_nat y && strict_l t | _ -> true in
+    if strict_l pk && List.for_all (fun k -> int_of_nat k < List.length space) pk && List.length pk = List.length pv && pk <> []
+       && int_of_nat (pf_index space pk pv) <> i_b then
+      oracle_fail "toIndexPF_spec" "toIndex" (Printf.sprintf "spec %d impl %d" (int_of_nat (pf_index space pk pv)) i_b);
     (match toIndexPartialKPF ids space pk pv with
      | Some m -> if int_of_nat m <> i_a then disagree "toIndexPartialKPF" "toIndexPartial" "differ"
      | None -> disagree "toIndexPartialKPF" "toIndexPartial" "generator precondition: ids must be a subsequence of the keys");
@@ -700,6 +705,15 @@ let judge _id (c : cursor) (r : cursor) : bool * string =
           let v = List.nth rowv (int_of_nat (toIndex sA i_a1)) in
           if not (q_eq v (q_maxl rowv)) then oracle_fail "sparse_single_eq_qlearning" "QGreedyPolicy::sampleAction" "the action used in the backup is not greedy"
         end;
+        (* O (round 6, theorem sparse_coop_update_spec): every rule matching (s,a) grows by the sum over its agents of
+           td_share (spec, written independently of the model's folds); every other rule keeps its value *)
+        let expected = List.map (fun ru ->
+            if rule_matches ru s a
+            then List.fold_left (fun acc ag -> q_add acc (td_share alpha discount !rules s a s1 i_a1 rew ag)) ru.rVal ru.rAK
+            else ru.rVal) !rules in
+        if not (qs_eq expected i_vals) then
+          oracle_fail "sparse_coop_update_spec" "SparseCooperativeQLearning::stepUpdateQ"
+            "a matching rule did not grow by the sum of its agents' TD shares, or a non-matching rule changed";
         rules := sparse_step (nat_of_int nA) alpha discount !rules s a s1 i_a1 rew;
         flat := ql_step alpha discount !flat (((toIndex sS s, toIndex sA a), toIndex sS s1), q_sum rew);
         if table && not (qs_eq i_vals (List.concat !flat)) then
